@@ -19,10 +19,10 @@ RULE = (
     "invalid background, unknown format / method must raise ordinary exceptions, never PanicException. Non-trivial = scenario with a motif of width >= 2; distinct = distinct scenario inputs."
 )
 REQUIRED = [
-    "family.build", "family.calculate", "family.scan", "family.pvalue", "family.rc", "family.load", "family.errors",
+    "family.build", "family.calculate", "route.encoded_sequence", "route.striped_copy", "family.scan", "family.pvalue", "family.rc", "family.load", "family.errors",
     "backend.generic", "backend.sse2", "backend.avx2", "backend.auto", "alphabet.protein", "reuse.increasing",
     "reuse.decreasing", "pseudocount.dict", "pseudocount.dict_with_wildcard_key", "background.wildcard_key", "background.nonuniform", "background.zero_entries", "base.non2",
-    "pvalue.meme", "pvalue.tfmpvalue", "pvalue.rc_after_cached_distribution", "load.path", "load.bytesio",
+    "pvalue.meme", "pvalue.tfmpvalue", "pvalue.rc_after_cached_distribution", "pvalue.wildcard_weighted_background", "load.path", "load.bytesio",
     "load.short_reads", "load.jaspar", "load.jaspar16", "load.transfac", "load.uniprobe", "scan.hits>0",
 ]
 
@@ -210,6 +210,36 @@ def family_calculate(rep, case, rng):
     if not ok:
         rep.violate("c17.stripe.error", case, "stripe raised %r on a valid sequence" % (striped,), dict(length=length))
         return
+    # the other ways to the same striped sequence: EncodedSequence(text).stripe(), copies; the
+    # encoded sequence displays as the text it was built from (C05 through Python)
+    route = rng.randrange(4)
+    if route:
+        rep.cover("route.encoded_sequence")
+        ok, enc = call(rep, case, "EncodedSequence", lambda: lightmotif.EncodedSequence(text, protein=protein))
+        if not ok:
+            rep.violate("c17.encode.error", case, "EncodedSequence raised %r on a valid sequence" % (enc,), dict(length=length))
+            return
+        if str(enc) != text or len(enc) != length or enc.protein != protein:
+            rep.violate("c17.encode.display", case, "str(EncodedSequence(text)) / len / protein differ from the input: %r" % (str(enc)[:60],), dict(length=length, sequence=text[:80]))
+            return
+        if length and [enc[i] for i in (0, length // 2, length - 1)] != [idx[0], idx[length // 2], idx[length - 1]]:
+            rep.violate("c17.encode.symbols", case, "EncodedSequence indices differ from the alphabet ranks of the characters", dict(length=length, sequence=text[:80]))
+            return
+        if route == 2:
+            enc = enc.copy()
+        elif route == 3:
+            import copy as _copy
+            enc = _copy.copy(enc)
+        if str(enc) != text:
+            rep.violate("c17.encode.copy", case, "a copy of an EncodedSequence displays differently", dict(length=length))
+            return
+        ok, striped = call(rep, case, "EncodedSequence.stripe", lambda: enc.stripe())
+        if not ok:
+            rep.violate("c17.stripe.error", case, "EncodedSequence.stripe raised %r" % (striped,), dict(length=length))
+            return
+        if rng.random() < 0.5:
+            striped = striped.copy()
+            rep.cover("route.striped_copy")
     order = rng.choice(["increasing", "decreasing", "random"])
     widths = sorted(rng.sample(range(1, 45), rng.randint(2, 5)))
     if order == "decreasing":
@@ -353,6 +383,15 @@ def family_pvalue(rep, case, rng):
             bgd = dyadic_background(rng, DNA)
     else:
         bgd = None
+    if bgd and rng.random() < 0.35:
+        # part of one frequency goes to the wildcard (as backgrounds counted on data with N have):
+        # words containing N score -inf under the library's own log-odds, the rest keeps its tail
+        donor = max(bgd, key=lambda c: bgd[c])
+        if bgd[donor] > 9 / 256.0:
+            amount = rng.choice([1, 4, 8]) / 256.0
+            bgd[donor] -= amount
+            bgd["N"] = amount
+            rep.cover("pvalue.wildcard_weighted_background")
     bg = [bgd.get(ch, 0.0) for ch in DNA] if bgd else R.uniform_bg(DNA)
     seqs = gen_motif_sequences(rng, DNA, w)
     pssm = lightmotif.create(seqs).counts.normalize(rng.choice([0.25, 1.0])).log_odds(bgd)
@@ -360,7 +399,7 @@ def family_pvalue(rep, case, rng):
     wit = dict(width=w, background=bgd, sequences=seqs[:5])
 
     def check(p_obj, p_rows, label):
-        ex = R.ExactDist([r[:4] for r in p_rows], bg[:4])
+        ex = R.ExactDist(p_rows, bg)
         step = R.meme_step(p_rows)
         d = (w / 2.0 + 1.0) * step
         for _ in range(6):
